@@ -94,10 +94,21 @@ def main(tier, seed):
 
     # ---- (i) quoted arguments
     nsch = 25 if tier == "quick" else 800
+    # the catalogue of faulty schemas (corpus/C04/diag): "-- expect: PE0xx" and "-- quoted: <name the diagnostic must quote>"
+    import glob
+    catalogue = []
+    for pth in sorted(glob.glob(os.path.join(VERIF, "corpus", "C04", "diag", "*.exp"))):
+        t_ = open(pth).read()
+        me = re.search(r"^-- expect:([^\n]*)$", t_, re.M)
+        mq = re.search(r"^-- quoted: (\S+)$", t_, re.M)
+        if me and mq:
+            catalogue.append(("catalogue", "corpus/C04/diag/" + os.path.basename(pth), t_, {"quoted": mq.group(1), "codes_any": [int(c[2:]) for c in me.group(1).split()]}))
     for k in range(nsch):
         r = rng(seed, "c20/%d" % k)
         S = G.gen_schema(r, name="gq_%d" % k)
         cases = [(c, d, t, e) for (c, d, t, e) in G.mutants(r, S) if "quoted" in e] + G.lexical_mutants(r, S)
+        if k == 0:
+            cases += catalogue
         for (cls, desc, text, expect) in cases:
             fexp = os.path.join(wdir, "q.exp")
             open(fexp, "w", encoding="latin-1").write(text)
@@ -114,6 +125,8 @@ def main(tier, seed):
             else:
                 q = expect["quoted"]
                 hit = [d for d in errs if q in d[3]]
+                if "codes_any" in expect:
+                    hit = [d for d in hit if d[1] in expect["codes_any"]]
                 if "code" in expect:
                     hit = [d for d in hit if d[1] == expect["code"]]
                 if not hit:
